@@ -38,7 +38,10 @@ class DisconnectResponse(KNXIPBodyResponse):
         if len(raw) < DisconnectResponse.LENGTH:
             raise CouldNotParseKNXIP("Disconnect info has wrong length")
         self.communication_channel_id = raw[0]
-        self.status_code = ErrorCode(raw[1])
+        try:
+            self.status_code = ErrorCode(raw[1])
+        except ValueError as err:
+            raise CouldNotParseKNXIP(f"unsupported status code: {raw[1]:#x}") from err
         return DisconnectResponse.LENGTH
 
     def to_knx(self) -> bytes:
